@@ -54,7 +54,10 @@ def signature(rec):
 def trace_of(rec, lazy=0):
     t = [cl.ev_reset(lazy, loose=[1])]
     for s in rec["steps"]:
-        t.append(cl.ev_exec(1, s["q"], s.get("r") or RESP, s["sid"], s["ao"]))
+        r = s.get("r")
+        if not r or r.get("ttls") is None:      # records of the sweeps carry no scripted answer of their own
+            r = RESP
+        t.append(cl.ev_exec(1, s["q"], r, s["sid"], s["ao"]))
     return t
 
 
